@@ -766,9 +766,13 @@ def cmd_scancel(st, argv, stdin, cwd, store):
         j = st["jobs"].get(i)
         if j is None or j["sched"] != "slurm" or j["phase"] not in ("pending", "running"):
             if verbose:
+                # scancel announces the attempt first and reports the controller's refusal afterwards
+                err += "scancel: Terminating job %s\n" % i
                 err += "scancel: error: Kill job error on job id %s: Invalid job id specified\n" % i
             continue
         if j["user"] != "me":
+            if verbose:
+                err += "scancel: Terminating job %s\n" % i
             err += "scancel: error: Kill job error on job id %s: Access/permission denied\n" % i
             continue
         _cancel(st, store, j)
